@@ -437,8 +437,6 @@ def make_rare(rng, m):
         best = rng.randrange(K)
         for a in range(K):
             m["R"][n][a] = [2 if a == best else -2] * N
-            if m["P"][n][a][n] == PD and K == 1:
-                return False
         reach2 = gen.reach(m)
         srcs = [s for s in reach2 if not m["abs"][s] and s != n]
         if not srcs or n in reach2:
@@ -1303,9 +1301,12 @@ def run(ctx):
     n = 220 if ctx.tier == "quick" else 2400
     ctx.rule = ("random discounted tabular POMDPs (2-4 states incl. 0-2 absorbing ones with or without ghost dynamics, 1-3 actions, "
                 "1-3 observations; observation kernels random / identity / action-permuted identity / single / uninformative; "
-                "rewards mixed / non-negative / non-positive / constant; discount 1/2, 3/4, 1/4, 9/10) x evaluation beliefs "
+                "rewards mixed / non-negative / non-positive / constant; discount 1/2, 3/4, 1/4, 9/10; every 8th case a rare-transition "
+                "instance: revealing observations, one state entered with probability 1e-9 only, another action best there) x evaluation beliefs "
                 "(initial, vertices incl. absorbing, simplex points with a zero component, filter-reachable) x direct backup "
-                "runs and planner configurations (thresholds, horizons incl. None and 0, expansion budgets) x QMDP with PI / VI. "
+                "runs and planner configurations (thresholds, horizons incl. None and 0, expansion budgets) x QMDP with PI / VI; "
+                "beliefs handed over as Belief tuples (canonical; for QMDP also permuted / support-only state lists), dictionaries "
+                "(support only, with zeros, permuted insertion order) and lists. "
                 "non-trivial = (instance, belief) with >= 2 supported non-absorbing states, two actions with different exact "
                 "upper action values and a non-zero optimum")
     ctx.assumptions = [
@@ -1317,6 +1318,10 @@ def run(ctx):
         "the coincidence clause is judged at members of a successor-closed belief set only (elsewhere a point-based "
         "value is legitimately lower); the look-ahead clause at beliefs whose successors are members",
         "float results are compared with exact rationals at 1e-9 relative",
+        "rare-transition family: the integer model leaves the 1e-9 entries out of the numbers and keeps them in the structure "
+        "(successor beliefs, closure); values are compared with the extra perturbation bound 2 eps max|R| / (1-gamma)^2",
+        "AlphaVectorPolicy reads Belief tuples positionally (ignores the states field): permuted / support-only Belief tuples are "
+        "only probed and counted for it (ALPHAVECTOR_HONOURS_BELIEF_STATES), judged for QMDP",
     ]
     cases = make_cases(rng, n, ctx.tier)
     chunk = 220 if ctx.tier == "quick" else 200
